@@ -467,13 +467,31 @@ Proof.
   apply pooled_multi_perm; auto.
 Qed.
 
-(* the same driver shape is used by spike_train_order_multi *)
+(* the same driver shape is used by spike_train_order_multi: with normalize = true the ratio of the
+   pooled sums, with normalize = false the pooled first component (the total numerator) *)
+Definition pooled_total (f : @train R -> @train R -> res (R * R)) (l : list (@train R)) : res R :=
+  rmap fst
+       (fold_left (fun acc p =>
+                     rbind acc (fun a =>
+                     rmap (fun d => (nadd ROps (fst a) (fst d), nadd ROps (snd a) (snd d)))
+                          (f (nth_train ROps l (fst p)) (nth_train ROps l (snd p)))))
+                  (pairs_of (seq 0 (length l))) (Ok (n0 ROps, n0 ROps))).
+
+Lemma pooled_total_value f l : (forall a b, exists v, f a b = Ok v) ->
+  pooled_total f l = Ok (psum (fv1 f) l).
+Proof.
+  intros Ht. unfold pooled_total. rewrite (pooled_fold f Ht l). cbn [rmap fst snd n0 ROps].
+  f_equal.
+  rewrite <- !psum_gpairs, <- !train_pairs, !map_map. cbn [fst snd]. lra.
+Qed.
+
 Lemma spike_train_order_multi_pooled cy nz mt m l :
   spike_train_order_multi ROps 0 cy false nz mt m l None
-  = pooled_multi (order_impl ROps 0 cy mt m) l.
+  = if nz then pooled_multi (order_impl ROps 0 cy mt m) l
+    else pooled_total (order_impl ROps 0 cy mt m) l.
 Proof.
-  unfold spike_train_order_multi, pooled_multi. cbn [indices_or_all].
-  rewrite check_indices_seq. cbn [negb]. reflexivity.
+  unfold spike_train_order_multi, pooled_multi, pooled_total. cbn [indices_or_all].
+  rewrite check_indices_seq. cbn [negb]. destruct nz; reflexivity.
 Qed.
 
 (* ------------------------------------------------------------------ *)
